@@ -41,31 +41,31 @@ type PackRun struct {
 	RoundTrip string            `json:"round_trip,omitempty"` // "", seq, pipe
 	PipeCap   int               `json:"pipe_cap,omitempty"`
 	PipeBreak int               `json:"pipe_break,omitempty"`
-	Chunks    []int             `json:"chunks,omitempty"` // reader / pipe chunking on the Unpack side
+	Chunks    []int             `json:"chunks,omitempty"`   // reader / pipe chunking on the Unpack side
 	RtAlias   bool              `json:"rt_alias,omitempty"` // the round-trip destination is spelled through a symlinked path component
 }
 
 type Scenario struct {
-	World   string    `json:"world"`
-	Profile string    `json:"profile"`
-	Seed    uint64    `json:"seed"`
-	UID     int       `json:"uid"`
-	Umask   int       `json:"umask"`
-	Tree    []TNode   `json:"tree"`
-	Rules   *string   `json:"rules,omitempty"` // content of /w/src/.terraformignore (nil: no file)
-	Opts    Opts      `json:"opts"`
-	History []string  `json:"history,omitempty"` // neg-first other-opts empty-rules chdir:<dir> same
-	Runs    []PackRun `json:"runs"`
-	Conc    bool      `json:"conc,omitempty"`  // runs execute as concurrent tasks
-	Chdirs  []string  `json:"chdirs,omitempty"` // a further task that only changes the working directory
-	Others  []string  `json:"others,omitempty"` // further concurrent tasks packing other trees with other rule files: hist1 hist4 big
-	SharedPacker bool `json:"shared_packer,omitempty"` // all Pack calls of the scenario go through one *Packer
-	RulesKind string  `json:"rules_kind,omitempty"`    // "": a regular rule file; "dir": .terraformignore is a directory; "longline": valid rules followed by a line longer than the scanner accepts
-	Mutations []Mutation `json:"mutations,omitempty"`  // a further task that changes the tree while Pack runs (C19/C20/C12 only)
-	SchedSeed  uint64 `json:"sched_seed,omitempty"`
-	SchedShape string `json:"sched_shape,omitempty"`
-	Tapes      [][]int `json:"tapes,omitempty"` // pinned schedule tapes, one per scheduler in creation order
-	HaveTape   bool   `json:"have_tape,omitempty"`
+	World        string     `json:"world"`
+	Profile      string     `json:"profile"`
+	Seed         uint64     `json:"seed"`
+	UID          int        `json:"uid"`
+	Umask        int        `json:"umask"`
+	Tree         []TNode    `json:"tree"`
+	Rules        *string    `json:"rules,omitempty"` // content of /w/src/.terraformignore (nil: no file)
+	Opts         Opts       `json:"opts"`
+	History      []string   `json:"history,omitempty"` // neg-first other-opts empty-rules chdir:<dir> same
+	Runs         []PackRun  `json:"runs"`
+	Conc         bool       `json:"conc,omitempty"`          // runs execute as concurrent tasks
+	Chdirs       []string   `json:"chdirs,omitempty"`        // a further task that only changes the working directory
+	Others       []string   `json:"others,omitempty"`        // further concurrent tasks packing other trees with other rule files: hist1 hist4 big
+	SharedPacker bool       `json:"shared_packer,omitempty"` // all Pack calls of the scenario go through one *Packer
+	RulesKind    string     `json:"rules_kind,omitempty"`    // "": a regular rule file; "dir": .terraformignore is a directory; "longline": valid rules followed by a line longer than the scanner accepts
+	Mutations    []Mutation `json:"mutations,omitempty"`     // a further task that changes the tree while Pack runs (C19/C20/C12 only)
+	SchedSeed    uint64     `json:"sched_seed,omitempty"`
+	SchedShape   string     `json:"sched_shape,omitempty"`
+	Tapes        [][]int    `json:"tapes,omitempty"` // pinned schedule tapes, one per scheduler in creation order
+	HaveTape     bool       `json:"have_tape,omitempty"`
 }
 
 // Mutation is one step of the mutator task: it runs at a scheduler yield of the
